@@ -108,7 +108,7 @@ def step (toks : List String) : String :=
       if op == "export" then
         let sig := kv.hex "sig"
         resLine toHex (exportImage execOps c (cfgOf kv) (fun _ => sig))
-      else if op == "parse" then
+      else if op == "parse" || op == "mparse" then
         resLine parsedStr (parseImage execOps (envOf kv) c (kv.optHex "dek") (kv.hex "data"))
       else if op == "thm" then
         -- evaluate the hypotheses and conclusions of the C01 theorems on this concrete case (instance check)
